@@ -7,6 +7,7 @@ import (
 	"context"
 
 	"github.com/hashicorp/go-plugin/internal/plugin"
+	"github.com/hashicorp/go-plugin/internal/verifhook"
 )
 
 // GRPCControllerServer handles shutdown calls to terminate the server when the
@@ -21,6 +22,7 @@ func (s *grpcControllerServer) Shutdown(ctx context.Context, _ *plugin.Empty) (*
 	resp := &plugin.Empty{}
 
 	// TODO: figure out why GracefullStop doesn't work.
+	verifhook.Point("grpc.shutdown", s.server, 0, 0)
 	s.server.Stop()
 	return resp, nil
 }
